@@ -1292,7 +1292,11 @@ def _concurrent_close_cases(thorough):
         for client in (1, 0):
             for std in (1, 0):
                 for after in (0, 1, 8):
-                    for peer, cut_mode in (([20, 0], "none"), ([20, 0], "before-cn"), ([20], "none")):
+                    for peer, cut_mode in (([20, 0], "none"), ([20, 0], "before-cn"), ([20], "none"), ([], "parked")):
+                        if cut_mode == "parked" and after != 8:
+                            continue
+                        # "parked": the peer is silent, so the reader is parked inside recv_into (holding the recv lock) when
+                        # the other task calls aclose(); the peer answers our close_notify with its own
                         base = dict(kind=K_CONCURRENT_CLOSE, std=std, ver=ver, client=client, peer=peer, after=after,
                                     reply_close=1, silent=1, cut=None)
                         if cut_mode == "before-cn":
@@ -1301,7 +1305,8 @@ def _concurrent_close_cases(thorough):
                             base["cut"] = full["info"]["peer_total"] - 3
                         r = run_concurrent_close(base)
                         inp = sx.norm([K_CONCURRENT_CLOSE, std, r["labels"],
-                                       [b"cclose", state, ver, client, peer, after, -1 if base["cut"] is None else base["cut"]]])
+                                       [b"cclose", state, ver, client, peer, after, -1 if base["cut"] is None else base["cut"],
+                                        base["silent"]]])
                         _MEMO[sx.to_text(inp)] = sx.norm(r["out"])
                         yield dict(input=inp, nontrivial=True,
                                    tags=["async", "recv-while-closing", f"tls1.{ver - 10}", "std" if std else "nonstd",
@@ -1354,7 +1359,7 @@ def _build(cfg):
 
 def _cclose_cfg(std, tail):
     return dict(kind=K_CONCURRENT_CLOSE, std=std, ver=tail[2], client=tail[3], peer=list(tail[4]), after=tail[5],
-                cut=None if tail[6] < 0 else tail[6], reply_close=1, silent=1)
+                cut=None if tail[6] < 0 else tail[6], reply_close=1, silent=tail[7] if len(tail) > 7 else 1)
 
 
 def run_impl(inp):
@@ -1629,8 +1634,10 @@ def oracle(inp):
         if std and trunc and eofs and 0 in cfg["peer"]:
             return (f"standard-compatible: stream cut at {cfg['cut']} before the end of the peer's close-notify reported as clean "
                     "end-of-stream to a reader draining while aclose() is in progress")
-        unwrap_failed = info["closer_op"] is not None and info["results"].get(info["closer_op"], [0])[0] == 1
-        if std and info["close"] == [0, 0] and not info["cn_seen"] and (_unread_close_ok() or not unwrap_failed):
+        cres = info["results"].get(info["closer_op"], [0, 0]) if info["closer_op"] is not None else [0, 0]
+        unwrap_failed = cres[0] == 1 and cres[1] not in (9, 12)      # unwrap() itself raised an SSL error
+        reader_failed = any(x[0] == 1 and x[1] != 12 for x in info["recvs"])      # the stream was already broken: nothing to say
+        if std and info["close"] == [0, 0] and not info["cn_seen"] and not reader_failed and (_unread_close_ok() or not unwrap_failed):
             return ("standard-compatible aclose() while a recv() is pending in another task did not deliver a close-notify "
                     "to the peer")
         return None
@@ -1680,6 +1687,14 @@ def oracle(inp):
     if not trunc and hs_ok and recv_results and not eofs:
         return "complete stream with close-notify did not end with a clean end-of-stream"
     # closing an open transport in standard-compatible mode sends a close-notify
+    clean_eof_then_close = (std and hs_ok and not trunc and recv_results and recv_results[-1][1] == 0 and recv_results[-1][2] == 0
+                            and not any(r_[1] == 1 for r_ in recv_results) and any(op[0] == OP_CLOSE for op in ops)
+                            and (kind == K_ASYNC or cfg.get("how", 0) == 0))
+    if clean_eof_then_close:
+        close_res = [res for op, res in zip(ops, results) if op[0] == OP_CLOSE]
+        if close_res and close_res[0][1] == 0 and not info["cn_seen"] and info.get("err") is None:
+            return ("standard-compatible close after the peer's clean close-notify did not send our own close-notify "
+                    "(closing the transport must send one)")
     open_at_close = (hs_ok and cfg.get("cut") is None and not any(r_[1] == 1 or (r_[1] == 0 and r_[2] == 0) for r_ in recv_results)
                      and not any(op[0] == OP_SEND and r_[1] == 1 for op, r_ in zip(ops, results)))
     if std and open_at_close and any(op[0] == OP_CLOSE for op in ops):
